@@ -1,7 +1,7 @@
 (* C20: executable comparison functions used by the harness-generated case files
    (model + K9 context vs. observations of the real implementation). *)
 From Coq Require Import List String Ascii ZArith Bool.
-From Verif Require Import Regex PyK PyK_schema SchemaGen K9Proofs.
+From Verif Require Import Regex PyK PyK_schema SchemaGen K9Proofs SchemaRoundtrip.
 From VerifGen Require Import K9.
 Import ListNotations.
 Open Scope string_scope.
@@ -37,10 +37,11 @@ Definition uri_of (c: kv) : option string :=
 (* one correspondence case: class table, (all_refs, dialect, ref_prefix), with_definitions, with_dialect_uri,
    builder?, roots, expected canonical documents, expected definitions, expected RecursionError *)
 Definition mcase : Type :=
-  (ctab * kv * (kv * kv * kv) * (bool * bool) * bool * list ty * list string * list (string * string) * bool)%type.
+  (list (string * rcls) * kv * (kv * kv * kv) * (bool * bool) * bool * list ty * list string * list (string * string) * bool)%type.
 
 Definition corr_ok (c: mcase) : bool :=
-  let '(E, pctx, (ar, D, p), (wd, wu), builder, roots, exp_docs, exp_defs, exp_rec) := c in
+  let '(ER, pctx, (ar, D, p), (wd, wu), builder, roots, exp_docs, exp_defs, exp_rec) := c in
+  let E := digest_tab ER in
   match ctx_for builder wd pctx ar D p with
   | Ok ctx =>
       match cfg_of_ctx ctx with
@@ -99,3 +100,34 @@ Definition k9_ok (c: k9case) : bool :=
 
 Definition mk_ctx (D ar q: kv) : kv :=
   KNs [("dialect", D); ("definitions", KDict []); ("all_refs", ar); ("ref_prefix", q); ("plugins", KTuple [])].
+
+(* round trip: document, expected canonical text of JSONSchema.from_dict(d).to_dict() or "ERR" when from_dict raised.
+   Documents outside the modelled value domain (NOut) make no claim; they are counted separately. *)
+Definition rt_ok (c: js * string) : bool :=
+  match norm (fst c) with
+  | NOk d => String.eqb (canon d) (snd c)
+  | NErr => String.eqb (snd c) "ERR"
+  | NOut => true
+  end.
+Definition rt_out (c: js * string) : bool := match norm (fst c) with NOut => false | _ => true end.
+
+(* debugging aid: the model's documents for a case *)
+Definition corr_dump (c: mcase) : list string :=
+  let '(ER, pctx, (ar, D, p), (wd, wu), builder, roots, exp_docs, exp_defs, exp_rec) := c in
+  let E := digest_tab ER in
+  match ctx_for builder wd pctx ar D p with
+  | Ok ctx =>
+      match cfg_of_ctx ctx with
+      | Some cfg =>
+          if builder
+          then match build_seq E cfg 8 roots [] with
+               | SOk (ds, st) => (map canon ds ++ map (fun kv => canon (snd kv)) st)%list
+               | SFuel => ["FUEL"] | SErr => ["ERR"] end
+          else match roots with
+               | [t] => match build E cfg 8 wd (if wu then uri_of ctx else None) t [] with
+                        | SOk (d, st) => (canon d :: map (fun kv => canon (snd kv)) st)%list
+                        | SFuel => ["FUEL"] | SErr => ["ERR"] end
+               | _ => ["?"] end
+      | None => ["nocfg"] end
+  | Raise _ => ["raise"]
+  end.
